@@ -4,6 +4,9 @@ import (
 	"context"
 	"encoding/json"
 	"errors"
+	"fmt"
+	"net"
+	"os"
 	"runtime"
 	"strconv"
 	"sync"
@@ -18,6 +21,44 @@ import (
 )
 
 var errScripted = errors.New("scripted failure")
+
+// Error classes of scripted faults (the fault alphabet). A fault is a fault
+// whatever its class; classes 1.. are errors of the context / deadline /
+// timeout family that a store or a remote service produces on its own (a
+// statement timeout, a pool acquire timeout, a remote deadline) while the
+// caller's Context is live.
+const nErrClasses = 8
+
+type netTimeout struct{}
+
+func (netTimeout) Error() string   { return "i/o timeout" }
+func (netTimeout) Timeout() bool   { return true }
+func (netTimeout) Temporary() bool { return true }
+
+func scriptedErr(class int) error {
+	switch class {
+	case 1:
+		return fmt.Errorf("store: query interrupted: %w", context.Canceled)
+	case 2:
+		return fmt.Errorf("store: statement timeout: %w", context.DeadlineExceeded)
+	case 3:
+		return fmt.Errorf("read: %w", os.ErrDeadlineExceeded)
+	case 4:
+		return &net.OpError{Op: "read", Net: "tcp", Err: netTimeout{}}
+	case 5:
+		// the Err() of a context of the callee's own whose deadline has passed
+		own, cancel := context.WithDeadline(context.Background(), time.Unix(1, 0))
+		defer cancel()
+		return fmt.Errorf("pool: acquire: %w", own.Err())
+	case 6:
+		return errors.Join(errScripted, context.Canceled)
+	case 7:
+		return context.DeadlineExceeded
+	}
+	return errScripted
+}
+
+var errClassName = [nErrClasses]string{"plain", "wraps-Canceled", "wraps-DeadlineExceeded", "wraps-os.ErrDeadlineExceeded", "net-timeout", "own-expired-context", "joined-with-Canceled", "bare-DeadlineExceeded"}
 
 // world is one instantiation of a scenario: the claircore values handed to
 // the real code plus everything the scripted parts record while it runs.
@@ -224,7 +265,7 @@ func (m *scriptMatcher) Vulnerable(ctx context.Context, r *claircore.IndexRecord
 	h := (m.s.salt + 3*pkg + 5*dist + 7*repo + 11*atoi(v.ID)) % 16
 	if h == m.s.verr {
 		m.w.fail(m.idx)
-		return false, errScripted
+		return false, scriptedErr(m.s.ec)
 	}
 	ok := h%8 < m.s.thresh
 	if ok {
@@ -249,7 +290,7 @@ func (m *remoteMatcher) QueryRemoteMatcher(ctx context.Context, rs []*claircore.
 		m.w.mu.Lock()
 		m.w.remoteKO[m.idx] = true
 		m.w.mu.Unlock()
-		return nil, errScripted
+		return nil, scriptedErr(m.s.ec)
 	}
 	out := map[string][]*claircore.Vulnerability{}
 	for _, e := range m.s.remote {
@@ -296,10 +337,14 @@ func (s *stubStore) Get(ctx context.Context, records []*claircore.IndexRecord, o
 		s.w.cancel()
 	}
 	if has(q, cGetFails) {
+		class := 0
 		if idx >= 0 {
 			s.w.fail(idx)
+			if idx < len(s.w.sc.matchers) {
+				class = s.w.sc.matchers[idx].ec
+			}
 		}
-		return nil, errScripted
+		return nil, scriptedErr(class)
 	}
 	if has(q, cRespectCtx) && ctx.Err() != nil {
 		if idx >= 0 {
@@ -388,7 +433,7 @@ func (e *scriptEnricher) Enrich(ctx context.Context, g driver.EnrichmentGetter, 
 		return "", nil, err
 	}
 	if e.s.fail {
-		return "", nil, errScripted
+		return "", nil, scriptedErr(e.s.ec)
 	}
 	var msgs []json.RawMessage
 	for _, m := range e.s.msgs {
